@@ -290,8 +290,12 @@ theorem no_change_version {H : Ser → List Char} {s : St} (hinv : Inv H s) {ins
   simpa using this
 
 theorem query_fresh {H : Ser → List Char} {s : St} (hinv : Inv H s) {i : Nat} {inst : Inst}
-    (hi : s.insts[i]? = some inst) (hlive : live s inst) :
+    (hi : s.insts[i]? = some inst) (hlive : live s inst) (hul : s.locked = false ∨ inst.cver = none) :
     (query H s i).2 = some (effectiveVersion H (progOf s.sym) id inst.name) := by
+  have hlk0 : (s.locked && inst.cver.isSome) = false := by
+    rcases hul with h | h
+    · simp [h]
+    · simp [h]
   have hmem : inst ∈ s.insts := List.mem_of_getElem? hi
   obtain ⟨b, hb, hst, hm⟩ := hlive
   have hlk : lookup (progOf s.sym) inst.name = some b.d := by rw [lookup_progOf, hb]; rfl
@@ -309,7 +313,7 @@ theorem query_fresh {H : Ser → List Char} {s : St} (hinv : Inv H s) {i : Nat} 
       have hev : effectiveVersion H (progOf s.sym) id inst.name = version H (progOf s.sym) id inst.name := by
         simp [effectiveVersion, hlk]
       rw [hev]
-      simp only
+      simp only [hlk0, Bool.false_eq_true, if_false]
       cases hc : cacheGet s.cache inst.name with
       | none => simp [recompute]
       | some gv =>
@@ -351,21 +355,23 @@ theorem inv_query {H : Ser → List Char} {s : St} (hinv : Inv H s) (i : Nat) : 
         have hroot : ∃ b, lookupB s.sym inst.name = some b ∧ b.stamp = inst.stamp := ⟨b, hb, hst'⟩
         split
         · exact hinv
-        · cases hc : cacheGet s.cache inst.name with
-          | none => exact inv_recompute hinv hroot
-          | some gv =>
-            obtain ⟨g, v⟩ := gv
-            simp only
-            split
-            · rename_i hcond
+        · split
+          · exact hinv
+          · cases hc : cacheGet s.cache inst.name with
+            | none => exact inv_recompute hinv hroot
+            | some gv =>
+              obtain ⟨g, v⟩ := gv
+              simp only
               split
-              · exact inv_recompute (inv_gen hinv _) hroot
-              · cases hcv : inst.cver with
-                | none =>
-                  have := (hinv.insts inst hmem).nover hcv
-                  simp [this] at hcond
-                | some c => exact hinv
-            · exact inv_recompute hinv hroot
+              · rename_i hcond
+                split
+                · exact inv_recompute (inv_gen hinv _) hroot
+                · cases hcv : inst.cver with
+                  | none =>
+                    have := (hinv.insts inst hmem).nover hcv
+                    simp [this] at hcond
+                  | some c => exact hinv
+              · exact inv_recompute hinv hroot
 
 theorem lookupB_hist_bind {s : St} {H : Ser → List Char} (hinv : Inv H s) (n : Name) (b : Bound) :
     ∀ m c, lookupB (bind s.sym n b) m = some c → c ∈ b :: s.hist := by
@@ -405,8 +411,11 @@ theorem inv_define {H : Ser → List Char} {s : St} (hinv : Inv H s) (n : Name) 
 theorem inv_step {H : Ser → List Char} {s : St} (hinv : Inv H s) (e : Ev) : Inv H (step H s e).1 := by
   cases e with
   | defMemento n ex tok refs =>
-    exact inv_define hinv n (.memento ex tok refs) rfl [⟨n, s.next, none, [], []⟩]
-      (fun y hy => by rcases List.mem_singleton.mp hy with rfl; exact ⟨rfl, rfl⟩) (s.gen + 1)
+    simp only [step]
+    split
+    · exact ⟨hinv.inj, hinv.symHist, hinv.below, hinv.track, hinv.insts⟩
+    · exact inv_define hinv n (.memento ex tok refs) rfl [⟨n, s.next, none, [], []⟩]
+        (fun y hy => by rcases List.mem_singleton.mp hy with rfl; exact ⟨rfl, rfl⟩) (s.gen + 1)
   | defPlain n tok refs =>
     have := inv_define hinv n (.plain true tok refs) rfl [] (fun y hy => by cases hy) s.gen
     simpa [step] using this
@@ -453,6 +462,7 @@ theorem inv_step {H : Ser → List Char} {s : St} (hinv : Inv H s) (e : Ev) : In
       · simp only [h, if_false] at hc
         exact hinv.symHist k c hc
   | query i => exact inv_query hinv i
+  | lock b => exact ⟨hinv.inj, hinv.symHist, hinv.below, hinv.track, hinv.insts⟩
 
 theorem inv_run {H : Ser → List Char} {s : St} (hinv : Inv H s) (es : List Ev) : Inv H (run H s es) := by
   induction es generalizing s with
